@@ -191,6 +191,10 @@ impl InstructionIR {
             },
 
             InstructionIR::Phase(angle, index, controls) => {
+                // NaN and infinities have no OpenQASM literal
+                if !angle.is_finite() {
+                    return Err(CompilerError::InvalidOperands(angle.to_string(), "p".to_string()));
+                }
                 let (ctrl_qasm_str, ctrl_operands_str, ctrl_comment_str) =
                     Self::generate_control_qasm_strings(controls);
                 
@@ -203,6 +207,10 @@ impl InstructionIR {
             },
 
             InstructionIR::Rx(angle, index, controls) => {
+                // NaN and infinities have no OpenQASM literal
+                if !angle.is_finite() {
+                    return Err(CompilerError::InvalidOperands(angle.to_string(), "rx".to_string()));
+                }
                 let (ctrl_qasm_str, ctrl_operands_str, ctrl_comment_str) =
                     Self::generate_control_qasm_strings(controls);
                 
@@ -214,6 +222,10 @@ impl InstructionIR {
             },
 
             InstructionIR::Ry(angle, index, controls) => {
+                // NaN and infinities have no OpenQASM literal
+                if !angle.is_finite() {
+                    return Err(CompilerError::InvalidOperands(angle.to_string(), "ry".to_string()));
+                }
                 let (ctrl_qasm_str, ctrl_operands_str, ctrl_comment_str) =
                     Self::generate_control_qasm_strings(controls);
                 
@@ -225,6 +237,10 @@ impl InstructionIR {
             },
 
             InstructionIR::Rz(angle, index, controls) => {
+                // NaN and infinities have no OpenQASM literal
+                if !angle.is_finite() {
+                    return Err(CompilerError::InvalidOperands(angle.to_string(), "rz".to_string()));
+                }
                 let (ctrl_qasm_str, ctrl_operands_str, ctrl_comment_str) =
                     Self::generate_control_qasm_strings(controls);
                 
